@@ -38,7 +38,7 @@ PROPS = {
                                               "FlaggedStorage::shared_get_mut (raw pointer into the channel, used only by parallel joins) is excluded",
                                               "bulk clear() emits nothing by design (stated in the property)",
                                               "both cfg variants of the storage-event-control feature are extracted and verified (units flagged / flagged_ec)"]),
-    'C13': dict(units=['storage'], witness='storage', assumptions=[HEADROOM] + STORAGE_ASSUME + ["parallel / SharedGetOnly variants are not covered (N3)", "join-membership of restricted storages is part of C06's join unit"]),
+    'C13': dict(units=['join'], witness='storage', assumptions=[HEADROOM] + STORAGE_ASSUME + ["parallel / SharedGetOnly variants are not covered (N3)"]),
     'C06': dict(units=['join'], witness='storage',
                 assumptions=[HEADROOM] + STORAGE_ASSUME + [
                     "REDUCED: hibitset's bit-set family (BitSetLike::iter ascending and duplicate-free, BitSetAnd/Not/All/Or views, layered skip logic) is an assumed contract: the 'indices straddling layer boundaries' part of the quantifier lives entirely in that dependency",
